@@ -18,7 +18,7 @@ def units(tier):
                       "the NUMERIC token language is transcribed by hand from tokenizer.re into the acceptor is_numeric_token (the re2c DFA itself is out of CBMC's reach, DESIGN §2.5)"],
              assumptions=["of C17 this unit covers the numeric-literal and implicit-multiplication clauses; precedence/associativity live in bison's LALR tables (not under contract); the function-name tables are unit name_tables",
                           "literals longer than the bound (incl. the strtol overflow path) and the HAVE_SYMENGINE_MPFR branch are not covered"])
-    return [u, names_unit()]
+    return [u, names_unit(), setconn_unit()]
 
 PC = 'symengine/parser/parser.cpp'
 TABLES = ['functions', 'double_arg_functions', 'multi_arg_functions', 'single_arg_boolean_functions', 'single_arg_boolean_boolean_functions',
@@ -47,6 +47,8 @@ def replay_args(obl, inputs, res):
             chars[int(m.group(1))] = v['data']
         if k == 'e.n' and 'data' in v:
             n = int(re.sub(r'[ul]+$', '', v['data']))
+    if 'set_connective' in obl:
+        return [obl, "connectives=1"]
     if 'functionify' in obl:
         return [obl, "names=1"]
     if n is None:
@@ -57,3 +59,18 @@ def replay_args(obl, inputs, res):
         m = re.match(r"^'(.)'$", d)
         s += m.group(1) if m else chr(int(d) & 0xff)
     return [obl, "s=" + s]
+
+
+def setconn_unit():
+    piece = Piece(PC, r'^    auto it3 = multi_arg_set_boolean_functions\.find\(name\);', region_end=r'^    \}', name='Parser::functionify — And/Or/Nand/Nor branch (table lookup .. end of the branch)', rules=[
+        R(r'auto (\w+) = (\w+)\.find\(name\);', r'TableIt \1 = \2.find(name);', n=1, regex=True, why="auto -> iterator type of the table stub"),
+        R(r'for \(auto &(\w+) : params\) \{', r'for (unsigned vi_ = 0; vi_ < params.size(); vi_++) { RCPBasic \1 = params[vi_];', n=1, regex=True, why="range-for over params -> index loop (front end rejects range-for)"),
+        R(r'is_a_Boolean\(\*(\w+)\)', r'is_a_Boolean_id(\1)', n=1, regex=True, why="type test on the ghost Boolean flag of the value id"),
+        R(r'throw (\w+)\(((?:[^;()"]|"[^"]*"|\([^()]*\))*)\);', r'VERIF_THROW(\1);', n='*', regex=True, why="exception object dropped"),
+        R(r'rcp_static_cast<const Boolean>\(', 'as_boolean(', n='*', regex=True, why="static cast of the RCP -> identity on value ids"),
+        R(r'\b(\w+)->second\(', r'call_entry(\1, ', n=1, regex=True, why="call through the std::function stored in the table row -> ghost call record"),
+        R(r'\bauto\b', 'RCPBasic', n='*', regex=True, why="any further auto names an operand handle")])
+    e = Entry('h_set_connective', defines={'CAP': 3}, route='B', timeout=600, mem_gb=6, unwind=10, bounds="operand lists of 1..3 operands drawn from 8 value ids (any Boolean flags)")
+    return Unit('set_connective', 'C17', 'contracts/C17/set_connective.cpp', {'setbool.inc': [piece]}, [e], route='B',
+                trusted=["vec_basic / set_boolean fixed-capacity stubs (std::set keeps one copy of equal elements), table lookup abstracted to found / not found, RCP = opaque value id"],
+                assumptions=["only the And/Or/Nand/Nor branch of Parser::functionify; the other branches of the params.size() dispatch are not under contract", "at most 3 operands"])
